@@ -23,7 +23,18 @@ type Case struct {
 	fields map[string]string
 	order  []string
 	dirty  bool // a field was set by a batch preparer after parsing / generation
+	stub   bool // generated for another shard: carries nothing (see genShard)
 }
+
+// While a generator runs for shard i of n, only every n-th case it creates (by creation order, starting at i) is built in
+// full; the others are one shared stub that the caller drops. Every shard process runs the same deterministic generator, so
+// the creation order is the same everywhere and each case is built in exactly one shard. (Building the whole case list in
+// each of 8 shard processes cost 8 x 11 GB in the thorough tier of kind=share: the kernel killed a shard.)
+var (
+	genShardI, genShardN = 0, 1
+	genCounter           int
+	stubCase             = &Case{id: "stub", fields: map[string]string{}, stub: true}
+)
 
 func (c *Case) get(k, d string) string {
 	if v, ok := c.fields[k]; ok {
@@ -39,6 +50,9 @@ var casesDirty bool
 var caseMu sync.Mutex
 
 func (c *Case) set(k, v string) {
+	if c.stub {
+		return
+	}
 	caseMu.Lock()
 	defer caseMu.Unlock()
 	if _, ok := c.fields[k]; !ok {
@@ -61,6 +75,13 @@ func (c *Case) line() string {
 }
 
 func newCase(id int, kv ...string) *Case {
+	if genShardN > 1 && id > 0 { // (id 0: an auxiliary case a generator builds to probe the implementation; always real, not counted)
+		k := genCounter
+		genCounter++
+		if k%genShardN != genShardI {
+			return stubCase
+		}
+	}
 	c := &Case{id: strconv.Itoa(id), fields: map[string]string{}}
 	for i := 0; i+1 < len(kv); i += 2 {
 		c.fields[kv[i]] = kv[i+1]
@@ -227,9 +248,11 @@ func main() {
 			}
 		}
 	} else {
+		genShardI, genShardN, genCounter = si, sn, 0
 		all := generate(kind, *tier, *seed, *only)
-		for i, c := range all {
-			if i%sn == si {
+		genShardN = 1
+		for _, c := range all {
+			if !c.stub {
 				cases = append(cases, c)
 			}
 		}
